@@ -200,6 +200,8 @@ def replay(rec, ctx):
         oth = IB.from_elementdensity(ad, oel, n_o, ne, te)
         gtag = f"[given-charge-{gv['g'][0]}/{gv['g'][1]}-of-ne]"
         res = {"scalar": lambda: [float(np.asarray(x).ravel()[0]) for x in (lambda m: [m[z] for z in range(Z + 1)])(IB.match_plasma_neutrality(ad, el, [oth], ne, te, **donor))],
+               "charges-listed-downwards": lambda: [float(np.asarray(x).ravel()[0]) for x in (lambda m: [m[z] for z in range(Z + 1)])(
+                   IB.match_plasma_neutrality(ad, el, [dict(reversed(list(oth.items())))], ne, te, **donor))],
                "ndarray": lambda: [float(np.asarray(x)[1]) for x in (lambda m: [m[z] for z in range(Z + 1)])(
                    IB.match_plasma_neutrality(ad, el, [{z: np.array([float(np.asarray(oth[z]).ravel()[0])] * 3) for z in oth}], np.array([ne, ne, ne]), np.array([te, te, te]), **arr))],
                "interpolators1d": lambda: [float(x(0.5)) for x in (lambda m: [m[z] for z in range(Z + 1)])(
